@@ -330,6 +330,10 @@ def twin_oracle(i_seed):
             declare_src(sc["ref_src"], False)
     except Exception as e:
         return ("harness", "reference declaration failed: %r" % (e,), stats)
+    if rng.random() < 0.5:
+        # the same name is already bound at module level to another class: a local class's own name still means itself
+        stats["decoy"] = 1
+        declare_src("class %s(Schema):\n    decoy: int\n" % cname, False)
     try:
         for sc in scopes:
             declare_src(sc["src"], False)
